@@ -47,8 +47,7 @@ def _conc(prop, family, tier, seed, props, mode="th", level="model_checking"):
     inst_kw = conccheck.OBJ_INST if family == "C07" else conccheck.META_INST
     viol, r, n_out, n_states = conccheck.judge(results, inst_kw)
     conccheck.report(v, results, viol, props, r, n_out, n_states)
-    if family == "C07":
-        _stepcheck(v, tier, seed, mode)
+    _stepcheck(v, tier, seed, mode, family)
     v.coverage["checker_cmd"] = ("harness.conc explorer (real code, all interleavings) ; tlc TraceLin ; "
                                  "tlc impl/MCImpl (implementation-shaped model) ; tlc impl/TraceSteps")
     v.assumptions += [
@@ -59,13 +58,13 @@ def _conc(prop, family, tier, seed, props, mode="th", level="model_checking"):
     return v
 
 
-def _stepcheck(v, tier, seed, mode="th"):
+def _stepcheck(v, tier, seed, mode="th", family="C07"):
     """Implementation-shaped model: TLC model-checks spec/impl/FileHashStore.tla for the
     scenarios (exhaustively, 3-thread ones included) and validates recorded executions of the
     real code against it step by step.  Rejected traces are drift, not alarms."""
     from . import conccheck, stepcheck
-    scs = conccheck.scenarios("C07", tier, mode)
-    if tier == "quick":
+    scs = conccheck.scenarios(family, tier, mode)
+    if tier == "quick" and family == "C07":
         keep = {"|".join(conccheck.cstr(c) for c in calls) for _, calls in conccheck.OBJ_QUICK}
         scs = [s_ for s_ in scs if s_.name.split("/", 2)[2] in keep and len(s_.threads) == 2] + \
               [s_ for s_ in scs if len(s_.threads) == 3 and "tag:p1:a|tag:p1:b|tag:p2:b" in s_.name]
@@ -82,7 +81,12 @@ def _stepcheck(v, tier, seed, mode="th"):
         "recorded_executions_validated": runs, "accepted_by_model": acc,
         "events_matched": sum(r_.get("events", 0) for r_ in res),
         "rejected_samples": [dict(scenario=r_["scenario"], **r_["stuck"][0]) for r_ in res if r_["stuck"]][:5],
+        "planted_corruptions": sum(r_.get("planted", 0) for r_ in res),
+        "planted_corruptions_rejected": sum(r_.get("planted_rejected", 0) for r_ in res),
         "tlc_errors": [r_["scenario"] for r_ in res if r_.get("error")][:5]}
+    acc_planted = [(r_["scenario"], r_["planted_accepted"]) for r_ in res if r_.get("planted_accepted")]
+    if acc_planted:
+        v.notes.append({"planted_corruptions_ACCEPTED_by_the_model": acc_planted[:5]})
     v.coverage["traces_validated_against_impl"] = v.coverage.get("traces_validated_against_impl", 0) + acc
     v.coverage["states"] = v.coverage.get("states", 0) + v.coverage["impl_model"]["model_states"]
     if bad_mc:
